@@ -511,6 +511,20 @@ def run(ctx):
             viol("subset|given-order", "subset(%s) of %s: atoms %s, numpy indexing of the atom list gives %s" % (idx, ienc(it), got, want), dict(top=ienc(it), keep=idx))
         if m is not None and m != got_text:
             ctx.broke("correspondence:subset-list", "top %s idx %s: impl %s model %s" % (ienc(it), idx, got_text, m))
+    # ---- insert_atom with an index that is not a position of the atom list (negative, beyond the end): refused, or else every atom's index is
+    # still its position afterwards
+    for bad_index in (-1, -3, 99):
+        tq = md.Topology(); cq = tq.add_chain(); rq = tq.add_residue("ALA", cq)
+        for nm_ in ("N", "CA", "C", "O"):
+            tq.add_atom(nm_, md.element.carbon, rq)
+        ctx.case(None, ("insert-index", bad_index)); ctx.count("calls:insert_atom with an index outside the atom list")
+        try:
+            tq.insert_atom("XX", md.element.carbon, rq, index=bad_index)
+            pos_ = [a.index for a in tq.atoms]
+            if pos_ != list(range(tq.n_atoms)) or any(tq.atom(i).index != i for i in range(tq.n_atoms)):
+                viol("edit|insert-index-outside", "insert_atom(index=%d) into a topology of 4 atoms is accepted and leaves the atoms with indices %s (atom(i).index is not i)" % (bad_index, pos_), dict(index=bad_index))
+        except (ValueError, IndexError):
+            pass
     # ---- editing: insert_atom(index=, rindex=) and delete_atom_by_index on topologies whose residues hold atoms of the same name and
     # element (two virtual sites "M", repeated ligand names): a plain-data shadow says what the topology must be after every edit; copies
     # of the edited topology compare equal to it and keep the order of the atoms inside each residue
